@@ -270,7 +270,8 @@ func runC12(c *Ctx) {
 				}
 				// ... or by a `go` statement in a function / method this one calls with the request
 				if call, isCall := in.(ssa.CallInstruction); isCall {
-					if g := call.Common().StaticCallee(); g != nil && len(g.Blocks) > 0 && hasModPrefix(g) {
+					_, viaClosure := call.Common().Value.(*ssa.MakeClosure) // calls of local closures are handled below
+					if g := call.Common().StaticCallee(); g != nil && !viaClosure && g.Parent() == nil && len(g.Blocks) > 0 && hasModPrefix(g) {
 						for _, gin := range instrsIn(g, func(x ssa.Instruction) bool { _, isGo := x.(*ssa.Go); return isGo }) {
 							for _, a := range gin.(*ssa.Go).Call.Args {
 								prm, isPrm := stripConv(a).(*ssa.Parameter)
